@@ -1134,3 +1134,33 @@ Example canon_nonvacuous :
   m_canon (DInt u8) 1 [(200, 1); (3, 2); (50, 3); (3, 4)] = [(3, 6); (50, 3); (200, 1)] /\
   m_sorted_test (DInt u8) 1 [200; 3; 50] = false.
 Proof. split; reflexivity. Qed.
+
+(* ------------------------------------------------------------------ _dot (COO @ COO): the row pointers count stored
+   elements in intp, whatever the operands' coordinate dtype *)
+Theorem width_irrelevant_dot_indptr_proof t rows rc :
+  Z.of_nat (length rc) < 2 ^ 63 ->
+  m_dot_indptr (DInt t) rows rc = m_dot_indptr DInf rows rc /\
+  tv (m_dot_indptr (DInt t) rows rc) = 0 :: cumsum_from 0 (map (fun r => count_eq r rc) (zrange rows)).
+Proof.
+  intros Hn. split; [reflexivity|].
+  unfold m_dot_indptr, s_dot_indptr_dtype, assign_into, astype. cbn [tv].
+  apply map_wr_id; [cbn; lia|].
+  pose proof (count_sum_le (zrange rows) rc (zrange_NoDup rows)) as Hs.
+  constructor; [reflexivity|].
+  eapply Forall_impl; [|apply (cumsum_bound _ 0)].
+  - cbn beta. intros v Hv. apply fits_iff. cbn. lia.
+  - rewrite Forall_map. apply Forall_forall. intros r _. apply count_eq_nonneg.
+Qed.
+
+(* ------------------------------------------------------------------ arrays without stored elements always carry intp
+   coordinates, so joining them with ordinary arrays never promotes to float64 *)
+Theorem ctor_empty_coords_intp_proof d axis0 :
+  m_ctor_empty_dtype d = DInt i64 /\
+  m_stack (m_ctor_empty_dtype d) axis0 = Ok (DInt i64) /\
+  promote (m_ctor_empty_dtype d) (DInt i64) = DInt i64.
+Proof. repeat split. Qed.
+
+Example dot_indptr_nonvacuous :
+  tv (m_dot_indptr (DInt u8) 3 (repeat 0 (Z.to_nat 100) ++ repeat 1 (Z.to_nat 100) ++ repeat 2 (Z.to_nat 100)))
+  = [0; 100; 200; 300].
+Proof. vm_compute. reflexivity. Qed.
